@@ -53,6 +53,13 @@ NEEDED = {
     "S-C20-5": "C20 datagram scenario on the server-side send path too (DatagramListenerSocketAdapter.send_to)",
     "S-C16-2": "C16 datagrams arriving before serve() and a stop + restart of serve() on the same listener",
     "S-C19-2": "C19 client level: AsyncTCPNetworkClient closed / its waiter cancelled at every step of the race",
+    "S-C16-5": "C16 back-pressure scenario: replies through the real listener adapter (shared write flow control), per-client move_on_after() around the reply (C20's flow-control model caught it before)",
+    "S-C16-6": "same C16 back-pressure scenario (C20 caught it before: reference model of WriteFlowControl and the stranded-sender rule)",
+    "S-C08-6": "C08 packet endpoint over TLS with the operations TLS refuses (send_eof) or that time out interleaved with the writes",
+    "S-C09-6": "C09 second read after the first verdict; BufferedStreamProtocol for the TCP clients",
+    "S-C13-6": "C14 rule: a cancellation delivered inside a close operation is re-raised at one of the next checkpoints; C13 statement 'libclose' (the server-side client's aclose() as a blocking operation of the generated programs)",
+    "S-C18-6": "C18 restart on a fixed address (standalone and async templates), the server's end closing first so that its connections are in TIME_WAIT on the listening address",
+    "S-C20-6": "none: the change is in the blocking API's lock_with_timeout (C20 is about asynchronous sends); C12's lock-timeout scenario catches it",
     "S-C04-2": "C04 interrupted send then resume (C20 caught it before)",
 }
 rows = []
